@@ -1440,7 +1440,21 @@ func c16Gen(r *rand.Rand, tier string) []Case {
 			}
 			var ds []sx.S
 			for _, d := range docs {
-				ds = append(ds, scDocSx(mode, d))
+				m := mode
+				if m == sx.S("ok") && len(docs) > 1 && r.Intn(3) == 0 {
+					// a load of a partition handed to AddTypes as Go values, where it can be built that way
+					api := true
+					for _, it := range d {
+						if !scAPIExpressible(it) {
+							api = false
+						}
+					}
+					if api {
+						m = "api"
+						tags = append(tags, "load-through-AddTypes")
+					}
+				}
+				ds = append(ds, scDocSx(m, d))
 			}
 			out = append(out, scCase(fmt.Sprintf("s%d-a%d", i, j), ds, append(tags, "nontrivial"), scHuman(docs)))
 		}
@@ -1490,7 +1504,7 @@ func c14Gen(r *rand.Rand, tier string) []Case {
 		// the same definitions as Go values through Root.AddTypes, where they can be built that way
 		apiMode := func(items []scItem, wantFail bool) sx.S {
 			for _, it := range items {
-				if !scAPIExpressible(it) || (!wantFail && (it.K == kSchema || scOpTypes[it.N] != "")) {
+				if !scAPIExpressible(it) {
 					return "ok"
 				}
 			}
